@@ -56,18 +56,19 @@ def main():
                                 "signatures": sigs[:12], "wall_s": round(time.time() - t0, 1),
                                 "summary": [l for l in r.stdout.splitlines() if " tier=" in l][-1:]}
             shutil.rmtree(out, ignore_errors=True)
-        dst = os.path.join(HERE, "seeded", name)
-        os.makedirs(dst, exist_ok=True)
-        for f in ("patch.diff", "demo.py"):
-            shutil.copy(os.path.join(src, f), os.path.join(dst, f))
-        meta = {}
-        try:
-            meta = json.load(open(os.path.join(src, "meta.json")))
-        except Exception:
-            pass
-        meta["verified_here"] = res
-        meta["repo_head"] = sh("git -C /repo rev-parse --short HEAD").stdout.strip()
-        json.dump(meta, open(os.path.join(dst, "meta.json"), "w"), indent=1)
+        if not os.environ.get("SEED_EVAL_NOWRITE"):      # (re-evaluations at other seeds do not file)
+            dst = os.path.join(HERE, "seeded", name)
+            os.makedirs(dst, exist_ok=True)
+            for f in ("patch.diff", "demo.py"):
+                shutil.copy(os.path.join(src, f), os.path.join(dst, f))
+            meta = {}
+            try:
+                meta = json.load(open(os.path.join(src, "meta.json")))
+            except Exception:
+                pass
+            meta["verified_here"] = res
+            meta["repo_head"] = sh("git -C /repo rev-parse --short HEAD").stdout.strip()
+            json.dump(meta, open(os.path.join(dst, "meta.json"), "w"), indent=1)
         ok = res["demo_with_patch_rc"] != 0 and res["demo_without_patch_rc"] == 0 and res["baseline_passes"]
         print("%s valid=%s %s" % (name, ok, " ".join("%s:%s" % (c, "DETECTED" if v["detected"] else "MISSED(rc=%s)" % v["rc"])
                                                       for c, v in res["checks"].items())))
